@@ -4,7 +4,7 @@ import ast
 import z3
 
 from pv import classes
-from pv.values import (V, VInt, VBool, VStr, VNONE, VNoneT, VTuple, VRef, VList, VOpt, VPy, VFn, VAny,
+from pv.values import (VMap, V, VInt, VBool, VStr, VNONE, VNoneT, VTuple, VRef, VList, VOpt, VPy, VFn, VAny,
                        OutOfSubset, fresh, fresh_name, kind_of, I, B, S)
 
 
@@ -53,6 +53,8 @@ class Evaluator:
             return v.t != 0      # tree / token objects define neither __bool__ nor __len__ (class-table check)
         if isinstance(v, VList):
             return st.llen(v.t) > 0
+        if isinstance(v, VMap):
+            raise OutOfSubset('truthiness of a dict')
         if isinstance(v, VTuple):
             return z3.BoolVal(len(v.items) > 0)
         if isinstance(v, VOpt):
@@ -70,12 +72,14 @@ class Evaluator:
             return v.isnone
         if isinstance(v, (VInt, VBool, VStr, VTuple, VList, VPy, VFn)):
             return z3.BoolVal(False)
+        if isinstance(v, VMap):
+            return v.t == 0
         raise OutOfSubset('is None of %r' % (v,))
 
     def identical(self, st, a, b):
         if isinstance(a, VNoneT) or isinstance(b, VNoneT):
             return self.is_none(st, b if isinstance(a, VNoneT) else a)
-        if isinstance(a, (VRef, VList, VAny)) and isinstance(b, (VRef, VList, VAny)):
+        if isinstance(a, (VRef, VList, VAny, VMap)) and isinstance(b, (VRef, VList, VAny, VMap)):
             return a.t == b.t
         if isinstance(a, VPy) and isinstance(b, VPy):
             return z3.BoolVal(a.obj is b.obj)
@@ -352,6 +356,8 @@ class Evaluator:
             return z3.Or([self.equal(st, x, from_py(i)) for i in cont.obj] or [z3.BoolVal(False)])
         if isinstance(cont, VList):
             return self.eng.list_contains(st, cont, x)
+        if isinstance(cont, VMap):
+            return st.mhas(cont.t, self.eng.map_key(cont, x), cont.kk)
         if isinstance(cont, VRef):
             return self.eng.map_contains(st, cont, x)
         raise OutOfSubset('membership in %s' % kind_of(cont))
